@@ -10,7 +10,7 @@ import Upnp.Lemmas.C01Dict
 import Upnp.Lemmas.C01Lru
 import Upnp.Gen.C01Ssdp
 namespace Upnp.C01
-open Upnp CIDict
+open Upnp CIDict PyDict
 
 /-! ### the generated tables are the ones the model is about -/
 
@@ -203,6 +203,117 @@ theorem adjust_same_unless_v6 (u : Bytes) (a : Addr) (p : UrlParts) (hp : urlPar
     obtain ⟨_, p', hp', hk'⟩ := adjusted_only_v6_link_local u u' a ho
     rw [hp] at hp'; cases hp'; exact absurd hk' hk
 
+/-! ### what holds of EVERY datagram, and the literal reading of "the same values" -/
+
+theorem decode_ok {data : Bytes} {loc : Option Addr} {src : Addr} {now : Int} {rl : Bytes} {h : Hdrs}
+    (hd : decode data loc src now = .ok (rl, h)) :
+    ∃ pairs udn, h = combineLower (headersOf pairs udn (withoutPort src)) (callMeta now loc src) := by
+  unfold decode decodeCore at hd
+  cases hp : headerParse data with
+  | error e => rw [hp] at hd; cases hd
+  | ok r =>
+    obtain ⟨pairs, rl', udn⟩ := r
+    rw [hp] at hd
+    simp only [Except.ok.injEq, Prod.mk.injEq] at hd
+    exact ⟨pairs, udn, hd.2.symm⟩
+
+/-- **sender metadata, for ALL datagrams**: whatever bytes were decoded — built by the library or not,
+    carrying headers named `_host`, `_PORT`, `_Remote_Addr` in any spelling or not — the decoded map
+    reads, under any spelling of these three names, the host string, the port and the address tuple
+    of the datagram's SOURCE.  (This is why a header map that sends a metadata name cannot come back
+    "the same": the second half of the property's sentence wins, for every datagram.  It was false of
+    the code before the repair of F01a.)  It is the theorem behind the judge clause `sourceMetaOk`. -/
+theorem source_meta_any (data : Bytes) (loc : Option Addr) (src : Addr) (now : Int) (rl : Bytes) (h : Hdrs)
+    (hd : decode data loc src now = .ok (rl, h)) :
+    (∀ k, lower k = kHost → getitem lower h k = some (.str (hostString src)))
+    ∧ (∀ k, lower k = kPort → getitem lower h k = some (.int src.port))
+    ∧ (∀ k, lower k = kRemote → getitem lower h k = some (.addr src)) := by
+  obtain ⟨pairs, udn, rfl⟩ := decode_ok hd
+  obtain ⟨a, b, c, d, _, _, _, _, _, _, _, _, _, _, _, _, t1, t2, t3⟩ := meta_ne
+  refine ⟨?_, ?_, ?_⟩
+  · intro k hk
+    rw [headers_get, hk, callMeta_get?_none _ _ _ _ ⟨a, b, c, d⟩, extras_eq]
+    simp [get?]; rfl
+  · intro k hk
+    rw [headers_get, hk]
+    simp [callMeta, get?, t2, t3]
+  · intro k hk
+    rw [headers_get, hk]
+    simp [callMeta, get?, t1]
+
+/-- a header value containing NUL is refused by the header parser (`InvalidHeader`, RFC 9110 §5.5): the
+    reason `validValue` excludes NUL — the text's "values without CR/LF" is false of such a value -/
+theorem parseLine_nul (k v : Bytes) (hk : isToken k = true) (hkl : k.length ≤ maxField) (hvl : v.length ≤ maxField)
+    (h1 : v.head? ≠ some SP) (h2 : v.head? ≠ some HT) (h3 : v.getLast? ≠ some SP) (h4 : v.getLast? ≠ some HT)
+    (h0 : 0 ∈ v) : parseLine (hdrLine [COLON] (k, v)) = .error .invalidHeader := by
+  obtain ⟨hne, hall⟩ := isToken_spec hk
+  have hcolon : COLON ∉ k := fun e => (isTchar_ne (List.all_eq_true.mp hall _ e)).1 rfl
+  have hsplit : splitFirst COLON (k ++ ([COLON] ++ v)) = some (k, v) := by
+    simpa using splitFirst_append COLON k v hcolon
+  have hhead : ¬ (k.head? = some SP ∨ k.head? = some HT ∨ k.getLast? = some SP ∨ k.getLast? = some HT) := by
+    intro e
+    rcases e with e | e | e | e
+    · exact (isTchar_ne (all_head? hall e)).2.1 rfl
+    · exact (isTchar_ne (all_head? hall e)).2.2.1 rfl
+    · exact (isTchar_ne (all_getLast? hall e)).2.1 rfl
+    · exact (isTchar_ne (all_getLast? hall e)).2.2.1 rfl
+  have hempty : k.isEmpty = false := by simpa using hne
+  have hnl : ¬ k.length > maxField := by omega
+  have hvl' : ¬ v.length > maxField := by omega
+  unfold parseLine hdrLine
+  simp only [hsplit, hempty, hhead, lstripSPHT_id v h1 h2, rstripSPHT_id v h3 h4, hnl, hvl', hk]
+  simp [h0]
+
+/-- **"the same header values", literally, for every sender that is not a scoped IPv6 address**
+    (IPv4, unscoped IPv6): EVERY sent header — `location` included — looked up by any spelling has
+    exactly the sent value -/
+theorem decode_build_unscoped (sep : Bytes) (hsep : SepOk sep) (sl : Bytes) (hsl : sl ∈ Gen.C01Ssdp.ssdpPrefixes)
+    (hs : List (Bytes × Bytes)) (hwf : wfHeaders Gen.C01Ssdp.metaKeys hs = true)
+    (loc : Option Addr) (src : Addr) (now : Int) (hsrc : ¬ (src.v6 = true ∧ src.scope ≠ 0)) :
+    ∃ h, decode (build sep sl hs) loc src now = .ok (sl, h)
+      ∧ ∀ p ∈ hs, ∀ k, lower k = lower p.1 → getitem lower h k = some (.str p.2) := by
+  obtain ⟨h, hd, hrt⟩ := decode_build sep hsep sl hsl hs hwf loc src now
+  refine ⟨h, hd, ?_⟩
+  intro p hp k hk
+  by_cases hl : lower p.1 = kLocation
+  · by_cases hw : allPyWs p.2 = true
+    · exact hrt.locBlank p hp hl hw k (hk.trans hl)
+    · have := (hrt.locAdjusted p hp hl (by simpa using hw)).1 k (hk.trans hl)
+      rw [this]
+      unfold adjVal
+      rw [adjust_identity p.2 src hsrc]
+  · exact hrt.sent p hp hl k hk
+
+/-- … and for a scoped IPv6 sender the ONLY header whose value may differ from the sent one is
+    `location`, and only when the URL's host is an IPv6 link-local literal; the sent text is then kept
+    under `_location_original` -/
+theorem decode_build_location_differs (sep : Bytes) (hsep : SepOk sep) (sl : Bytes) (hsl : sl ∈ Gen.C01Ssdp.ssdpPrefixes)
+    (hs : List (Bytes × Bytes)) (hwf : wfHeaders Gen.C01Ssdp.metaKeys hs = true)
+    (loc : Option Addr) (src : Addr) (now : Int) :
+    ∃ h, decode (build sep sl hs) loc src now = .ok (sl, h)
+      ∧ ∀ p ∈ hs, ∀ k, lower k = lower p.1 → ∀ u', getitem lower h k = some (.str u') → u' ≠ p.2 →
+          lower p.1 = kLocation ∧ (src.v6 = true ∧ src.scope ≠ 0)
+          ∧ (∃ parts, urlParts p.2 = .ok parts ∧ ipKind parts.host = .v6LinkLocal)
+          ∧ getitem lower h kLocOrig = some (.str p.2) := by
+  obtain ⟨h, hd, hrt⟩ := decode_build sep hsep sl hsl hs hwf loc src now
+  refine ⟨h, hd, ?_⟩
+  intro p hp k hk u' hu hne
+  by_cases hl : lower p.1 = kLocation
+  · by_cases hw : allPyWs p.2 = true
+    · rw [hrt.locBlank p hp hl hw k (hk.trans hl)] at hu
+      simp only [Option.some.injEq, Val.str.injEq] at hu; exact absurd hu.symm hne
+    · obtain ⟨ha, ho⟩ := hrt.locAdjusted p hp hl (by simpa using hw)
+      rw [ha k (hk.trans hl)] at hu
+      unfold adjVal adjustUrl at hu
+      cases hout : urlOutcome p.2 src with
+      | same w => rw [hout] at hu; simp only [Option.some.injEq, Val.str.injEq] at hu; exact absurd hu.symm hne
+      | unmodelled => rw [hout] at hu; simp at hu
+      | adjusted v =>
+        obtain ⟨hsc, parts, hparts, hkind⟩ := adjusted_only_v6_link_local p.2 v src hout
+        exact ⟨hl, hsc, ⟨parts, hparts, hkind⟩, ho kLocOrig (by decide)⟩
+  · rw [hrt.sent p hp hl k hk] at hu
+    simp only [Option.some.injEq, Val.str.injEq] at hu; exact absurd hu.symm hne
+
 /-! ### the run-time judge is the theorem's reading -/
 
 /-- **The judge evaluated on the model's own observation accepts**: for a well-formed header list,
@@ -317,6 +428,102 @@ theorem deliver_all (sinks : List Sink) (hn : sinks.Nodup) (x : Bytes × Hdrs) :
     unfold deliver at he
     obtain ⟨t, _, rfl⟩ := List.mem_map.mp he
     rfl
+
+/-! ### judge soundness: what a green verdict means for an ARBITRARY observation -/
+
+theorem lookupCI_coherent {o : Obs} (hc : o.coherent = true) {k : Bytes} {v : Option Val}
+    (hl : o.lookupCI k = some v) : ∀ q ∈ o.gets, lower q.1 = lower k → q.2 = v := by
+  unfold Obs.lookupCI at hl
+  cases hf : o.gets.find? (fun p => lower p.1 == lower k) with
+  | none => rw [hf] at hl; cases hl
+  | some q0 =>
+    rw [hf] at hl
+    simp only [Option.map_some, Option.some.injEq] at hl
+    have hq0 := List.mem_of_find?_eq_some hf
+    have hk0 : lower q0.1 = lower k := by simpa using List.find?_some hf
+    intro q hq hk
+    unfold Obs.coherent at hc
+    have := List.all_eq_true.mp (List.all_eq_true.mp hc q hq) q0 hq0
+    simp only [Bool.or_eq_true, bne_iff_ne, ne_eq, beq_iff_eq] at this
+    rcases this with h | h
+    · exact absurd (hk.trans hk0.symm) h
+    · rw [h, hl]
+
+/-- **`roundTripOk` is sound**: for ANY observation `o` (in particular the implementation's), a green
+    verdict means the declarative clauses — same start line; every probe spelling of a sent name other
+    than `location` reads the sent value; `location` reads the sent text when blank, otherwise the sent
+    text is under `_location_original`; the names are the sent ones (ignoring case) plus metadata /
+    private names, every sent name is there, no two names fold together; every probe spelling of
+    `_host`, `_port`, `_remote_addr` reads the source's. -/
+theorem roundTripOk_sound (mk : List Bytes) (sl : Bytes) (hs : List (Bytes × Bytes)) (src : Addr) (rl : Bytes) (o : Obs)
+    (h : roundTripOk mk sl hs src rl o = true) :
+    rl = sl
+    ∧ (∀ p ∈ hs, lower p.1 ≠ kLocation → ∀ q ∈ o.gets, lower q.1 = lower p.1 → q.2 = some (.str p.2))
+    ∧ (∀ p ∈ hs, lower p.1 = kLocation →
+        (allPyWs p.2 = true → ∀ q ∈ o.gets, lower q.1 = kLocation → q.2 = some (.str p.2))
+        ∧ (allPyWs p.2 = false → ∀ q ∈ o.gets, lower q.1 = kLocOrig → q.2 = some (.str p.2)))
+    ∧ (∀ n ∈ o.iter, lower n ∈ hs.map (fun p => lower p.1) ∨ lower n ∈ mk ∨ n.head? = some 95)
+    ∧ (∀ p ∈ hs, ∃ n ∈ o.iter, lower n = lower p.1)
+    ∧ (o.iter.map lower).Nodup
+    ∧ (∀ q ∈ o.gets, lower q.1 = kHost → q.2 = some (.str (hostString src)))
+    ∧ (∀ q ∈ o.gets, lower q.1 = kPort → q.2 = some (.int src.port))
+    ∧ (∀ q ∈ o.gets, lower q.1 = kRemote → q.2 = some (.addr src)) := by
+  unfold roundTripOk at h
+  simp only [Bool.and_eq_true, beq_iff_eq] at h
+  obtain ⟨⟨⟨⟨⟨⟨hrl, hcoh⟩, hvals⟩, hsub⟩, hsup⟩, hdis⟩, hmeta⟩ := h
+  have klow : lower kHost = kHost ∧ lower kPort = kPort ∧ lower kRemote = kRemote ∧ lower kLocOrig = kLocOrig := by decide
+  have hv := List.all_eq_true.mp hvals
+  refine ⟨hrl, ?_, ?_, ?_, ?_, distinctCI_spec hdis, ?_, ?_, ?_⟩
+  · intro p hp hl q hq hk
+    have := hv p hp
+    unfold valueOk at this
+    have hne : (lower p.1 == kLocation) = false := by simpa using hl
+    simp only [hne, Bool.false_eq_true, if_false, beq_iff_eq] at this
+    exact lookupCI_coherent hcoh this q hq hk
+  · intro p hp hl
+    have := hv p hp
+    unfold valueOk at this
+    simp only [hl, beq_self_eq_true, if_true] at this
+    constructor
+    · intro hw q hq hk
+      simp only [hw, if_true, beq_iff_eq] at this
+      exact lookupCI_coherent hcoh this q hq (by rw [hk, hl])
+    · intro hw q hq hk
+      simp only [hw, Bool.false_eq_true, if_false, Bool.and_eq_true, beq_iff_eq] at this
+      exact lookupCI_coherent hcoh this.1 q hq (by rw [hk, klow.2.2.2])
+  · intro n hn
+    have := List.all_eq_true.mp hsub n hn
+    simp only [Bool.or_eq_true, List.contains_eq_mem, decide_eq_true_eq, beq_iff_eq] at this
+    rcases this with (a | b) | c
+    · exact Or.inl a
+    · exact Or.inr (Or.inl b)
+    · exact Or.inr (Or.inr c)
+  · intro p hp
+    have := List.all_eq_true.mp hsup p hp
+    simp only [List.contains_eq_mem, decide_eq_true_eq] at this
+    obtain ⟨n, hn, e⟩ := List.mem_map.mp this
+    exact ⟨n, hn, e⟩
+  · unfold metaOk at hmeta
+    simp only [Bool.and_eq_true, beq_iff_eq] at hmeta
+    intro q hq hk
+    exact lookupCI_coherent hcoh hmeta.1.1.1 q hq (by rw [hk, klow.1])
+  · unfold metaOk at hmeta
+    simp only [Bool.and_eq_true, beq_iff_eq] at hmeta
+    intro q hq hk
+    exact lookupCI_coherent hcoh hmeta.1.1.2 q hq (by rw [hk, klow.2.1])
+  · unfold metaOk at hmeta
+    simp only [Bool.and_eq_true, beq_iff_eq] at hmeta
+    intro q hq hk
+    exact lookupCI_coherent hcoh hmeta.1.2 q hq (by rw [hk, klow.2.2.1])
+
+/-- `sameResult` is sound: a green verdict means equal start lines, equal iteration order, equal case
+    maps and equal items up to the value of the time stamp -/
+theorem sameResult_sound (rl₁ rl₂ : Bytes) (o₁ o₂ : Obs) (h : sameResult rl₁ o₁ rl₂ o₂ = true) :
+    rl₁ = rl₂ ∧ o₁.iter = o₂.iter ∧ o₁.cmap = o₂.cmap
+    ∧ o₁.data.map (fun p => (p.1, stripTs p.2)) = o₂.data.map (fun p => (p.1, stripTs p.2)) := by
+  unfold sameResult at h
+  simp only [Bool.and_eq_true, beq_iff_eq, Obs.noTs] at h
+  exact ⟨h.1.1.1, h.1.1.2, h.2, h.1.2⟩
 
 /-! ### decoding is independent of history -/
 
